@@ -224,7 +224,7 @@ func genC19Sel(t *rapid.T) c19Sel {
 	n := rapid.IntRange(0, 12).Draw(t, "n")
 	large := rapid.IntRange(0, 5).Draw(t, "large") == 0
 	capped := rapid.IntRange(0, 3).Draw(t, "capped") == 0
-	huge := c.Selector == "minpriority" && rapid.IntRange(0, 5).Draw(t, "huge") == 0
+	huge := rapid.IntRange(0, 5).Draw(t, "huge") == 0
 	var sum int64
 	for i := 0; i < n; i++ {
 		cs := coinSpec{V: int64(rapid.IntRange(0, 6).Draw(t, "v")), C: int64(rapid.IntRange(0, 4).Draw(t, "c"))}
@@ -253,7 +253,7 @@ func genC19Sel(t *rapid.T) c19Sel {
 		c.MinChange = rapid.Int64Range(0, 100000).Draw(t, "minchangel")
 		c.MinAvg = rapid.Int64Range(0, 50000000).Draw(t, "minavgl")
 	}
-	if huge && n > 0 {
+	if huge && n > 0 && c.Selector == "minpriority" {
 		// the required average sits a unit or two above / at / below the true average of a prefix of the list
 		k := rapid.IntRange(1, n).Draw(t, "hk")
 		var tot int64
